@@ -37,6 +37,7 @@ def configs(tier):
     C["slotted_c2s1"] = base("slotted", Cap=2, Trig=1, MaxLive=4)
     C["slotted_c1s2"] = base("slotted", Cap=1, Trig=2, MaxLive=4)
     C["slotted_c2s2"] = base("slotted", Cap=2, Trig=2, MaxLive=3 if q else 4)
+    C["slotted_prio"] = base("slotted", Cap=2, Trig=1, Prios={0, 1}, MaxLive=3 if q else 4)
     if not q:
         C["slotted_c3s1"] = base("slotted", Cap=3, Trig=1, MaxLive=4)
         C["prio_c3"] = base("prio", Cap=3, Prios={0, 1, 2}, MaxLive=4)     # (a .cfg cannot hold negative numbers)
@@ -66,6 +67,7 @@ def walk_configs(tier):
     W["fleet_d1t0"] = base("fleet", Cap=2, FDelay=1, Transit=0, MaxLive=3)
     W["slotted_c2s1"] = base("slotted", Cap=2, Trig=1, MaxLive=3)
     W["slotted_c1s2"] = base("slotted", Cap=1, Trig=2, MaxLive=3)
+    W["slotted_prio"] = base("slotted", Cap=1, Trig=1, Prios={0, 1}, MaxLive=3)
     if not q:
         W["slotted_c2s2"] = base("slotted", Cap=2, Trig=2, MaxLive=3)
         W["slotted_c3s1"] = base("slotted", Cap=3, Trig=1, MaxLive=3)
@@ -79,4 +81,6 @@ def store_cfg_of(c):
     d = dict(kind=c["Kind"], mode=c["Mode"], cap=c["Cap"], fdelay=c["FDelay"], transit=c["Transit"], trig=c["Trig"])
     if c["Kind"] == "slotted":
         d.update(slot=c["Trig"], acc=1)
+        if c["Prios"] != {0}:
+            d["prio_api"] = True
     return d
